@@ -112,8 +112,8 @@ theorem inv1_finish (c : Cfg) (chunks0 : Array (Array Nat)) (s : St) (j idle : N
         · exact (hv i).1 e
       · exact (hv i).2 (fun e => hn (List.mem_cons_of_mem _ e))
 
-theorem inv1_step (c : Cfg) (chunks0 : Array (Array Nat)) (s s' : St) (e : Ev)
-    (h : Inv1 c chunks0 s) (hs : step c chunks0.size s e = some s') : Inv1 c chunks0 s' := by
+theorem inv1_step (c : Cfg) (cont : Bool) (chunks0 : Array (Array Nat)) (s s' : St) (e : Ev)
+    (h : Inv1 c chunks0 s) (hs : step c cont chunks0.size s e = some s') : Inv1 c chunks0 s' := by
   cases e with
   | send =>
     simp only [step] at hs
@@ -175,14 +175,19 @@ theorem inv1_step (c : Cfg) (chunks0 : Array (Array Nat)) (s s' : St) (e : Ev)
         have hmem : ∀ j, j ∈ rest → j ∈ s.chan := fun j hj => by rw [hch]; exact List.mem_cons_of_mem _ hj
         have hxc : x ∈ s.chan := by rw [hch]; exact List.mem_cons_self
         split at hs
-        · injection hs with hs; subst hs
-          refine ⟨?_, hrn, h.ndb, h.ndd, fun j hj => h.dcb j (hmem j hj), h.dbd, h.nxt, h.sz, h.fl,
-            h.val⟩
-          intro j hj
-          rcases hj with hj | hj | hj
-          · exact h.lt j (Or.inl (hmem j hj))
-          · exact h.lt j (Or.inr (Or.inl hj))
-          · exact h.lt j (Or.inr (Or.inr hj))
+        · have hdrop : ∀ j, (j ∈ rest ∨ j ∈ s.busy ∨ j ∈ s.done) → j < s.next := by
+            intro j hj
+            rcases hj with hj | hj | hj
+            · exact h.lt j (Or.inl (hmem j hj))
+            · exact h.lt j (Or.inr (Or.inl hj))
+            · exact h.lt j (Or.inr (Or.inr hj))
+          split at hs
+          · injection hs with hs; subst hs
+            exact ⟨hdrop, hrn, h.ndb, h.ndd, fun j hj => h.dcb j (hmem j hj), h.dbd, h.nxt, h.sz,
+              h.fl, h.val⟩
+          · injection hs with hs; subst hs
+            exact ⟨hdrop, hrn, h.ndb, h.ndd, fun j hj => h.dcb j (hmem j hj), h.dbd, h.nxt, h.sz,
+              h.fl, h.val⟩
         · injection hs with hs; subst hs
           refine ⟨?_, hrn, List.nodup_cons.mpr ⟨(h.dcb x hxc).1, h.ndb⟩, h.ndd, ?_, ?_, h.nxt, h.sz,
             h.fl, h.val⟩
@@ -235,8 +240,8 @@ theorem inv1_step (c : Cfg) (chunks0 : Array (Array Nat)) (s s' : St) (e : Ev)
               exact inv1_finish c chunks0 s j (s.idle + 1) ch h hj hsolve
     · simp at hs
 
-theorem inv1_run (c : Cfg) (chunks0 : Array (Array Nat)) :
-    ∀ (evs : List Ev) (s s' : St), Inv1 c chunks0 s → run c chunks0.size s evs = some s' →
+theorem inv1_run (c : Cfg) (cont : Bool) (chunks0 : Array (Array Nat)) :
+    ∀ (evs : List Ev) (s s' : St), Inv1 c chunks0 s → run c cont chunks0.size s evs = some s' →
       Inv1 c chunks0 s' := by
   intro evs
   induction evs with
@@ -244,8 +249,8 @@ theorem inv1_run (c : Cfg) (chunks0 : Array (Array Nat)) :
   | cons e evs ih =>
     intro s s' h hr
     simp only [run] at hr
-    cases hst : step c chunks0.size s e with
+    cases hst : step c cont chunks0.size s e with
     | none => rw [hst] at hr; simp at hr
-    | some s1 => rw [hst] at hr; exact ih s1 s' (inv1_step c chunks0 s s1 e h hst) hr
+    | some s1 => rw [hst] at hr; exact ih s1 s' (inv1_step c cont chunks0 s s1 e h hst) hr
 
 end Sux.Func.Par
